@@ -39,7 +39,8 @@ EXTENDS Values, Json
 CONSTANTS
     Cores,          \* set of definition cores to explore (records, see below)
     Epochs,         \* epochs a tuple may carry (Int or NaN)
-    MaxTuples,      \* size bound of a coordinate set
+    MaxTuples,      \* size bound of a coordinate set (translation/rate part: exact replay)
+    MaxFormTuples,  \* size bound of a coordinate set for definitions with rotation or scale
     Pos,            \* tuple k of a set sits at position Pos[k] (triple of Int)
     DevAccumulate   \* deviation switch (known finding): parameters accumulate over epoch changes
 
@@ -217,7 +218,7 @@ Init == /\ core \in CoresC
 \* coordinate sets are only built for accepted, non-exact definitions (the exact
 \* mode differs from the small-angle mode only in what is carried symbolically);
 \* a static definition sees one epoch per set size (epochs are inert there)
-AddTuple == /\ phase = "build" /\ Len(data) < MaxTuples
+AddTuple == /\ phase = "build" /\ Len(data) < (IF Pure(res) THEN MaxTuples ELSE MaxFormTuples)
             /\ P0.ok /\ ~core.exact
             /\ \E t \in EpochsC :
                   /\ P0.dynamic \/ t = CHOOSE e \in EpochsC : e # NaN
